@@ -27,7 +27,9 @@ K_F19 = "F19:merge-two-massless-nan"
 K_F19H = "F19:hardsphere-two-massless-nan"
 
 
-VARIANT = ["0"] * 5      # RmVariant flags, extracted from particle.c in run()
+VARIANT = ["0"] * 6      # RmVariant flags (5) + purge-flagged-at-end-of-search, determined in run()
+PURGE = [False]          # fixes/C13-tree-merge-remove-at-boundary.diff applied? (probed in run())
+RESFLAGS = {"merge": "0", "hs": "0"}     # massless guards of the built-in resolvers (probed in run())
 VARIANT_NAMES = ["rangeFirst", "lastResetsNActive", "lastDeletesTree", "sortedTreeErrFirst", "unsortedClampNActive"]
 
 
@@ -181,6 +183,8 @@ def gen_spec(rng, idx, thorough=False):
             rel = p["vx"][1]
             p["vx"], p["vy"], p["vz"] = [prev[a] - rel[i] / spec["dt"] for i, a in enumerate(("vx", "vy", "vz"))]
     if spec["collision"] in ("tree", "linetree"):
+        if rng.chance(0.25):
+            spec["r_after_add"] = 1        # radii assigned after reb_simulation_add: max_radius must be rescanned
         spec["ks"] = 0 if rng.chance(0.9) else 1        # sorted removal + tree is rejected by the code (F4)
     if spec["gravity"] == "tree" and spec["ks"] == 1 and rng.chance(0.8):
         spec["ks"] = 0
@@ -244,6 +248,40 @@ def make_sim(W, spec):
     return sim
 
 
+class TreeCell(ctypes.Structure):
+    pass
+
+
+TreeCell._fields_ = [("x", ctypes.c_double), ("y", ctypes.c_double), ("z", ctypes.c_double), ("w", ctypes.c_double),
+                     ("m", ctypes.c_double), ("mx", ctypes.c_double), ("my", ctypes.c_double), ("mz", ctypes.c_double),
+                     ("oct", ctypes.POINTER(TreeCell) * 8), ("pt", ctypes.c_int), ("remote", ctypes.c_int)]
+
+
+def tree_tokens(sim):
+    """pre-order dump of the real oct-tree (struct reb_treecell, tree.h:34-56; no QUADRUPOLE) for drv_c13's `T` op"""
+    if not sim._tree_root:
+        return ["0"], 0
+    roots = ctypes.cast(sim._tree_root, ctypes.POINTER(ctypes.POINTER(TreeCell)))
+    toks = [str(sim.N_root)]
+    ncell = [0]
+
+    def rec(cp, depth):
+        if not cp or depth > 200:
+            toks.append("N")
+            return
+        c = cp.contents
+        ncell[0] += 1
+        if c.pt >= 0:
+            toks.extend(["L", d2h(c.x), d2h(c.y), d2h(c.z), d2h(c.w), str(c.pt)])
+        else:
+            toks.extend(["D", d2h(c.x), d2h(c.y), d2h(c.z), d2h(c.w)])
+            for o in range(8):
+                rec(c.oct[o], depth + 1)
+    for ri in range(sim.N_root):
+        rec(roots[ri], 0)
+    return toks, ncell[0]
+
+
 def pstate(sim):
     out = []
     for i in range(sim.N):
@@ -300,6 +338,7 @@ def run_real(W, spec, res, steps=1):
         return out
 
     sim.collision_resolve = cb
+    maxr_pre = (sim.max_radius[0], sim.max_radius[1])
     if kind == "hs" and len(res) > 1 and res[1] is not None:
         eps = res[1]
         sim.coefficient_of_restitution = lambda simp, v: eps
@@ -314,7 +353,7 @@ def run_real(W, spec, res, steps=1):
         per_step.append(dict(pre=pre, calls=calls[n0:], post=pstate(sim), t=sim.t))
     return dict(sim=sim, calls=calls, hsrec=hsrec, state=pstate(sim), seed=sim.rand_seed, N=sim.N,
                 N_active=sim.N_active, nvar=sim.N_var, t=sim.t, dtl=sim.dt_last_done, tree=bool(sim._tree_root),
-                maxr=(sim.max_radius[0], sim.max_radius[1]), per_step=per_step, cb=cb)
+                maxr=(sim.max_radius[0], sim.max_radius[1]), maxr_pre=maxr_pre, per_step=per_step, cb=cb)
 
 
 def probe_variant(W):
@@ -348,6 +387,26 @@ def probe_variant(W):
     sim = mk(3); sim.N_active = 3
     rm(ctypes.byref(sim), 2, 0)
     f["unsortedClampNActive"] = int(sim.N_active == 2)
+    # massless guards of the resolvers (fixes/C13-merge-massless.diff, C13-hardsphere-massless.diff)
+    from rebound.simulation import CollisionS
+    for name, fn in (("mergeMasslessMidpoint", W.clib.reb_collision_resolve_merge), ("hsMasslessEqual", W.clib.reb_collision_resolve_hardsphere)):
+        sim = rb.Simulation()
+        sim.add(m=0.0, r=1.0, x=-0.5, vx=1.0, hash=1)
+        sim.add(m=0.0, r=1.0, x=0.5, vx=-1.0, hash=2)
+        sim.t = 1.0
+        cc = CollisionS(); cc.p1 = 0; cc.p2 = 1
+        fn(ctypes.byref(sim), cc)
+        p0 = sim._particles[0]
+        f[name] = int(p0.x == p0.x and p0.vx == p0.vx)
+    # are particles flagged during a tree-mode search removed at the end of reb_collision_search?
+    sim = mk(0, tree=True)
+    sim.add(m=1.0, r=1.0, x=-0.5, vx=1.0, hash=1)
+    sim.add(m=1.0, r=1.0, x=0.5, vx=-1.0, hash=2)
+    sim.add(m=1.0, r=0.1, x=4.0, hash=3)
+    sim.t = 1.0
+    sim.collision_resolve = "merge"
+    W.clib.reb_collision_search(ctypes.byref(sim))
+    f["treePurgeAtEnd"] = int(sim.N == 2)
     return f
 
 
@@ -363,7 +422,9 @@ def f_line(spec, mode, state, tab, tree, res, dtl, t, ninner, given=(), nvar=0):
     if res[0] == "script":
         toks += ["script", str(res[1])]
     elif res[0] == "hs":
-        toks += ["hs", d2h(res[1] if res[1] is not None else 1.0), d2h(spec.get("mcv", 0.0))]
+        toks += ["hs", d2h(res[1] if res[1] is not None else 1.0), d2h(spec.get("mcv", 0.0)), RESFLAGS["hs"]]
+    elif res[0] == "merge":
+        toks += ["merge", RESFLAGS["merge"]]
     else:
         toks += [res[0]]
     toks += [str(ninner)] + ring_tokens(spec, tab)
@@ -522,6 +583,11 @@ def scenario(c, W, exe_lines, spec, tag, stats):
         rs = sorted((p[8] for p in stateR), reverse=True)
         c.violation("max-radius-bookkeeping", "max_radius0/1 = %r do not bound the two largest radii %r although all radii were given to reb_simulation_add"
                     % (list(A["maxr"]), rs[:2]), dict(spec=spec))
+    if col in ("tree", "linetree") and spec.get("r_after_add") and A["N"] == len(spec["parts"]) + nvar and not h_holds(stateR, A["maxr"]):
+        # after a tree search the repaired code has rescanned the radii (reb_collision_update_max_radius)
+        rs = sorted((p[8] for p in stateR), reverse=True)
+        c.violation(K_F8, "after a %s search max_radius0/1 = %r do not bound the two largest radii %r (radii assigned after reb_simulation_add)"
+                    % (col, list(A["maxr"]), rs[:2]), dict(spec=spec))
     stats["maxr_checked"] = stats.get("maxr_checked", 0) + 1
 
     # ---- search oracle on the real code (does not use the model)
@@ -592,11 +658,33 @@ def scenario(c, W, exe_lines, spec, tag, stats):
         exe_lines.append("R %d %d" % (spec["seed"], len(reported)))
         li_s = len(exe_lines)
         exe_lines.append(s_line(spec, "direct" if col == "tree" else "lineall", stateA, tab, A["dtl"], n))
+        # the walk itself: model's treeSearch / lineTreeSearch on the tree read back from the code
+        ttoks, ncell = tree_tokens(simA)
+        stats["tree_cells"] += ncell
+        li_t = len(exe_lines)
+        tl = ["T", col, d2h(A["dtl"]), d2h(A["maxr_pre"][0]), d2h(A["maxr_pre"][1])] + ring_tokens(spec, tab) + [str(len(stateA))]
+        for p in stateA:
+            tl.append(str(p[0]))
+            tl += [d2h(v) for v in p[1:]]
+        exe_lines.append(" ".join(tl + ttoks))
 
         def chk1t(out):
             news = [int(x) for x in out[li_r].split()]
             if news[-1] != A["seed"]:
                 stats["shuffle_order_differs"] += 1
+            # ---- walk tie: pending list in order of discovery + max_radius bookkeeping
+            tt = out[li_t].split()
+            if (tt[0], tt[1]) != (d2h(A["maxr"][0]), d2h(A["maxr"][1])):
+                c.corr_break("reb_collision_update_max_radius: model %s code %s (%s)" % (tt[:2], [d2h(v) for v in A["maxr"]], tag), dict(spec=spec))
+                stats["tie_fail"] += 1
+            walk = parse_s(" ".join(tt[2:]))
+            if sorted(walk) != sorted(reported):
+                c.corr_break("%s walk: model's pending list is not a permutation of the code's: %d vs %d entries (%s)" % (
+                    col, len(walk), len(reported), tag), dict(spec=spec, model=sorted(walk)[:8], code=sorted(reported)[:8]))
+                stats["tie_fail"] += 1
+            elif news[-1] == A["seed"] and walk != unshuffle(news[:-1], reported):
+                stats["walk_order_differs"] += 1       # same entries, other order of discovery: not a property matter
+            stats["tie_walk"] += 1
             ms = parse_s(out[li_s])
             mset = set(ms)
             rset = set(reported)
@@ -650,10 +738,10 @@ def scenario(c, W, exe_lines, spec, tag, stats):
     # ---- identity accounting on the real code (A4 as an executable statement)
     massless = kind == "merge" and any(r is not None and r[3] in (1, 2) and r[0][0][6] + r[0][1][6] == 0.0 for r in B["hsrec"])
     if massless:
-        # the survivor's coordinates are 0/0 = NaN, which in a tree mode is also the "removed" flag: F19
-        if any(p[1] != p[1] or p[2] != p[2] for p in B["state"]):
-            c.violation(K_F19, "merging two massless particles gives NaN coordinates (1/(m1+m2))", dict(spec=spec))
         stats["massless_merges"] += 1
+    if massless and any(p[1] != p[1] or (p[2] != p[2] and "+tree" not in path) or p[4] != p[4] for p in B["state"]):
+        # the survivor's coordinates are 0/0 = NaN, which in a tree mode is also the "removed" flag: F19
+        c.violation(K_F19, "merging two massless particles gives NaN coordinates (1/(m1+m2))", dict(spec=spec))
     else:
         check_accounting(c, spec, stateA, B, callsB, kind, path, stats, reported)
         if kind == "merge":
@@ -676,6 +764,8 @@ def scenario(c, W, exe_lines, spec, tag, stats):
         bad = None
         if got != callsB:
             bad = "sequence of (p1,p2,ghost box,ids,outcome) handed to the resolver differs"
+        elif PURGE[0] and B["tree"] and sorted(p[0] for p in m["ps"]) != sorted(p[0] for p in B["state"]):
+            bad = "survivors after the end-of-search tree update: model ids %s code ids %s" % (sorted(p[0] for p in m["ps"]), sorted(p[0] for p in B["state"]))
         elif m["N"] != B["N"] or m["N_active"] != B["N_active"]:
             bad = "N / N_active after the step: model %d/%d code %d/%d" % (m["N"], m["N_active"], B["N"], B["N_active"])
         else:
@@ -684,7 +774,11 @@ def scenario(c, W, exe_lines, spec, tag, stats):
                 mx = max(scale[k] for k in grp)
                 for k in grp:
                     scale[k] = mx
-            for i, (mp, cp) in enumerate(zip(m["ps"], B["state"])):
+            mps, cps = m["ps"], B["state"]
+            if PURGE[0] and B["tree"]:
+                # order after reb_simulation_update_tree is the tree sweep's (C15): compare by identity
+                mps = sorted(mps, key=lambda p: p[0]); cps = sorted(cps, key=lambda p: p[0])
+            for i, (mp, cp) in enumerate(zip(mps, cps)):
                 ch = tuple(d2h(v) for v in cp[1:])
                 if mp[0] != cp[0]:
                     bad = "particle %d: identity model %d code %d" % (i, mp[0], cp[0]); break
@@ -756,7 +850,10 @@ def check_accounting(c, spec, stateA, B, callsB, kind, path, stats, reported=Non
     if "+tree" in path:
         fin_alive = [p[0] for p in final if p[2] == p[2]]
         fin_all = [p[0] for p in final]
-        if fin_all != ids0:
+        if PURGE[0] and removed:
+            if len(fin_all) != len(fin_alive):
+                c.violation(K_F17, "tree mode: a flagged particle (y=NaN) is still in the array after the search", dict(spec=spec, res=kind))
+        elif fin_all != ids0:
             c.violation("tree-array-changed", "tree mode: particle array changed during collision resolution", dict(spec=spec, res=kind))
         if sorted(fin_alive) != sorted(alive):
             c.violation("lost-or-duplicated:" + path, "unflagged particles %s ≠ survivors %s" % (sorted(fin_alive), sorted(alive)), dict(spec=spec, res=kind))
@@ -842,7 +939,7 @@ def check_hs(c, spec, B, res, stats):
         if m1 + m2 == 0.0:
             if any(v != v for v in a1[3:6] + b1[3:6]):
                 c.violation(K_F19H, "hard-sphere bounce of two massless particles gives NaN velocities (m/(m1+m2) = 0/0)", dict(spec=spec, rec=rec))
-            return      # NaNs propagate to later bounces of this scenario
+                return      # NaNs propagate to later bounces of this scenario
         sc = abs(m1) * max(abs(v) for v in a0[3:6] + a1[3:6]) + abs(m2) * max(abs(v) for v in b0[3:6] + b1[3:6]) + 1e-300
         dp = max(abs((m1 * a1[3 + k] + m2 * b1[3 + k]) - (m1 * a0[3 + k] + m2 * b0[3 + k])) for k in range(3)) / sc
         stats["worst_hs_mom"] = max(stats["worst_hs_mom"], dp)
@@ -985,7 +1082,12 @@ def run(c):
                            "agree": sflags == flags, "problems": problems}
     if sflags is None:
         c.broken.append("extraction: reb_simulation_remove_particle no longer has the structure the model mirrors: " + "; ".join(problems))
-    VARIANT[:] = [str(flags[k]) for k in VARIANT_NAMES]
+    VARIANT[:] = [str(flags[k]) for k in VARIANT_NAMES] + [str(flags["treePurgeAtEnd"])]
+    PURGE[0] = bool(flags["treePurgeAtEnd"])
+    RESFLAGS.update(merge=str(flags["mergeMasslessMidpoint"]), hs=str(flags["hsMasslessEqual"]))
+    if sflags is not None:
+        sflags = dict(sflags, mergeMasslessMidpoint=flags["mergeMasslessMidpoint"], hsMasslessEqual=flags["hsMasslessEqual"])
+        c.cov["extraction"]["agree"] = all(sflags[k] == flags[k] for k in VARIANT_NAMES)
     c.prove(["RV.Props.C13"])
     exe = lean_exe("drv_c13")
     c.cov["rule"] = ("clusters (chain / clump / star) of 2-8 mutually overlapping particles, radii equal / spread over 3 decades / partly zero / one big, "
@@ -1004,8 +1106,8 @@ def run(c):
     stats = dict(N={}, dropped_by_boundary=0, missed={}, oracle_yes=0, oracle_edge=0, tie_fail=0, tie_search=0, tie_driver=0,
                  resolver={}, calls=0, paths={}, accounted=0, merges=0, worst_mass=0.0, worst_mom=0.0, worst_com=0.0,
                  merge_across_boundary=0, bounces=0, worst_hs_mom=0.0, worst_hs_energy=0.0, hs_ulp=0, tree_pruned_pairs=0,
-                 histories=0, left_box=0, massless_merges=0, shuffle_order_differs=0, state_ulp_diffs=0)
-    ncases = 24000 if c.thorough else 600
+                 histories=0, left_box=0, massless_merges=0, shuffle_order_differs=0, state_ulp_diffs=0, tree_cells=0, tie_walk=0, walk_order_differs=0)
+    ncases = 24000 if c.thorough else 450
     lines = []
     pend = []
     specs = [("corpus/" + f, s) for f, s in corpus_specs()]
